@@ -10,7 +10,7 @@ import math
 import random
 from fractions import Fraction
 
-from harness import fix, tlc, tracecheck
+from harness import alpha, fix, tlc, tracecheck
 
 
 def _mods():
@@ -29,7 +29,7 @@ def ellipsoids(gc, rnd, n):
     for k in range(n):
         a = round(rnd.uniform(6.3e6, 6.4e6), 3)
         invf = round(rnd.uniform(150, 400), 6)
-        out.append(("rand(%s,%s)" % (a, invf), gc.Ellipsoid(a, invf)))
+        out.append(("rand(%s,%s)" % (a, invf), alpha.build(gc.Ellipsoid, a, invf)))
     return out
 
 
@@ -43,7 +43,7 @@ def fresh(E):
     _N[0] += 1
     if _N[0] % 3 == 0:
         return E
-    e = type(E)(E.semimaj, E.inversef)
+    e = alpha.build(type(E), *alpha.defn(E, "semimaj", "inversef")) if hasattr(E, "_verif_defn") else type(E)(E.semimaj, E.inversef)
     _KEEP.append(e)
     del _KEEP[:-2]
     return e
@@ -52,8 +52,7 @@ def fresh(E):
 def fwd_event(cv, an, name, E, slat, slon, h, turn):
     lat = math.degrees(math.atan2(slat[0], slat[1]))
     lon = math.degrees(math.atan2(slon[0], slon[1])) + 360.0 * turn
-    a = float(E.semimaj)
-    invf = float(E.inversef)
+    a, invf = alpha.defn(E, "semimaj", "inversef")
     f = 1.0 / invf
     e2 = f * (2 - f)
     s2 = (slat[0] / slat[2]) ** 2
@@ -75,15 +74,13 @@ def fwdany_event(cv, name, E, lat, lon, h, out=None, form="float", an=None):
     evaluated at the angle the object denotes)"""
     alat, alon = lat, lon
     if form != "float":
-        from harness import alpha
         mk = {"dec": an.DECAngle, "hp": an.dec2hpa, "gon": an.dec2gona, "dms": an.dec2dms, "ddm": an.dec2ddm}[form]
         alat, alon = mk(lat), mk(lon)
         lat, lon = float(alpha.angle_deg(alat)), float(alpha.angle_deg(alon))
         exact = (alpha.angle_deg(alat), alpha.angle_deg(alon))
     else:
         exact = None
-    a = float(E.semimaj)
-    invf = float(E.inversef)
+    a, invf = alpha.defn(E, "semimaj", "inversef")
     f = 1.0 / invf
     e2 = f * (2 - f)
     ev = {"k": "FwdAny", "ell": name, "a": fix.enc(a), "invf": fix.enc(invf), "f0": fix.enc(f),
